@@ -827,6 +827,15 @@ class An:
                     # per alternative, at the site where that alternative was built
                     for s2, t2 in t[1]:
                         out.append((s2 if isinstance(s2, tuple) and len(s2) == 2 else s, t2))
+                elif t[0] == 'from_residual' and t[1][0] == 'residual' and t[1][1][0] == 'phi':
+                    # several failures re-raised through one shared `Err(e)` join (combinator chains): one return value per
+                    # failure; re-raising an `Err(v)` that was just built is that `Err(v)`, re-raising a re-raised failure is itself
+                    for s2, t2 in t[1][1][1]:
+                        site = s2 if isinstance(s2, tuple) and len(s2) == 2 else s
+                        if t2[0] == 'from_residual' or _def_err(t2):
+                            out.append((site, t2))
+                        else:
+                            out.append((site, ('from_residual', mk_residual(t2))))
                 else:
                     out.append((s, t))
         # _0 may also be built by partial stores / be a memory local
